@@ -186,7 +186,31 @@ func Step() {
 	if cfg.Strategy != StratNone {
 		yield(YStep)
 	}
+	if StepHook != nil {
+		StepHook()
+	}
 }
+
+// Charge adds n steps of logical time to the running client (waiting costs
+// time too: a task polling a channel that never delivers must run into the
+// step cap, not into the wall-clock watchdog).
+//
+//go:norace
+func Charge(n int64) {
+	c := cur
+	if c == nil {
+		return
+	}
+	c.Steps += n
+	if c.Steps > c.Cap {
+		c.Aborted = true
+		panic(Abort{Steps: c.Steps})
+	}
+}
+
+// StepHook, when set (tool world only), is called at every instrumentation
+// step: the task scheduler of package simtask preempts there.
+var StepHook func()
 
 // Yield is a scheduling point of the given kind.
 //
